@@ -12,6 +12,7 @@ import (
 	"fmt"
 	"go/types"
 	"os"
+	"strings"
 	"time"
 
 	"golang.org/x/tools/go/callgraph/cha"
@@ -55,6 +56,10 @@ func (w *World) toBits(e *Effects) []uint64 {
 	}
 	for p := range e.prefixes {
 		setBit(&b, w.internPrefix(p))
+		if !e.soft[p] {
+			// a write that may reach objects the caller knows (see Effects.soft)
+			setBit(&b, w.internPrefix("H|"+p))
+		}
 	}
 	return b
 }
@@ -75,6 +80,7 @@ func orInto(dst *[]uint64, src []uint64) bool {
 
 func (w *World) fromBits(b []uint64) *Effects {
 	e := newEffects()
+	hard := map[string]bool{}
 	for i, word := range b {
 		if word == 0 {
 			continue
@@ -90,8 +96,17 @@ func (w *World) fromBits(b []uint64) *Effects {
 			case 1:
 				e.allocs = true
 			default:
-				e.prefixes[w.prefixNames[id-2]] = true
+				if n := w.prefixNames[id-2]; strings.HasPrefix(n, "H|") {
+					hard[n[2:]] = true
+				} else {
+					e.prefixes[n] = true
+				}
 			}
+		}
+	}
+	for p := range e.prefixes {
+		if !hard[p] {
+			e.soft[p] = true
 		}
 	}
 	return e
